@@ -22,7 +22,8 @@ ID = "C12"
 RULE = (
     "Histories on one long-lived interpreter (Hypothesis rule-based state machine): a pool of texts per shard - generated "
     "valid projects of different shapes (scenario counts, resolutions, zones, limits, sub-slot efforts, unequal teams, "
-    "own reports), infeasible ones, syntactically broken ones, two repository fixtures - and the operations parse-only, "
+    "own reports), infeasible ones, syntactically broken ones, two repository fixtures, and a pair with one body whose zoned "
+    "resource works on a DST-switch day, one project beginning before and one after the switch - and the operations parse-only, "
     "parse-and-schedule, schedule(handle), schedule-again(handle), generate-reports(handle), CLI-style run "
     "(ScriptPlan.run: parse, schedule twice, reports), failing parse, schedule with an injected fault (an exception "
     "raised inside the k-th task placement, as an interrupt would), drop; several handles are alive at once so "
@@ -135,6 +136,34 @@ task lim "lim" {{
 taskreport r1 "sched" {{
   formats json, csv
   columns id, start, end, cost
+}}
+"""))
+    # two projects with the same body and a zoned resource working on the day its zone changes its offset, one
+    # beginning before the switch and one after it: anything remembered per zone or per day across projects in
+    # one process (rather than per project) answers differently depending on which of them ran first
+    zname, zday = [("America/New_York", "2025-03-09"), ("Europe/Berlin", "2025-03-30"), ("America/New_York", "2025-11-02"),
+                   ("Europe/London", "2025-10-26"), ("Australia/Sydney", "2025-10-05"), ("America/Sao_Paulo", "2018-11-04")][seed % 6]
+    for tag, begin in (("zoned_before", zday), ("zoned_after", zday + "-12:00")):
+        texts.append((tag, f"""project prj "P" {begin} +2w {{
+  timezone "UTC"
+  timingresolution 60min
+}}
+resource z0 "z0" {{
+  timezone "{zname}"
+  workinghours sun - sat {8 + seed % 3}:00 - {16 + seed % 3}:00
+}}
+task a "a" {{
+  effort {4 + seed % 4}h
+  allocate z0
+}}
+task b "b" {{
+  effort 30h
+  allocate z0
+  depends a
+}}
+taskreport r1 "sched" {{
+  formats json, csv
+  columns id, start, end
 }}
 """))
     fx = sorted(os.listdir(os.path.join(boot.REPO, "tests", "data")))
